@@ -140,6 +140,95 @@ fn main() {
             report.insert("seed".into(), json!(seed));
             std::fs::write(&out, serde_json::to_string_pretty(&serde_json::Value::Object(report)).unwrap()).unwrap();
         }
+        "cmp" => {
+            use cbverif::cmp_engine as ce;
+            let thorough = arg(&args, "--tier").as_deref() == Some("thorough");
+            let seed: u64 = arg(&args, "--seed").and_then(|s| s.parse().ok()).unwrap_or(20260926);
+            let threads: usize = arg(&args, "--threads").and_then(|s| s.parse().ok()).unwrap_or(16);
+            let out = arg(&args, "--out").expect("--out");
+            let prop_cases: u32 = arg(&args, "--prop-cases").and_then(|s| s.parse().ok()).unwrap_or(if thorough { 2_000_000 } else { 200_000 });
+            let t0 = Instant::now();
+            let (es, ps, fail) = ce::run_cmp(thorough, seed, threads, prop_cases);
+            let sj = |st: &ce::CmpStats| {
+                json!({
+                    "evaluations": st.evaluations,
+                    "distinct_nontrivial": st.nontrivial.len(),
+                    "pairs_with_equal_contents": st.equal_pairs,
+                    "by_kind": st.by_kind,
+                    "samples": st.samples,
+                })
+            };
+            let mut report = serde_json::Map::new();
+            let mut e = sj(&es);
+            e["exhaustive"] = json!(fail.is_none());
+            report.insert("enumerative".into(), e);
+            report.insert("proptest".into(), sj(&ps));
+            if let Some((c, m, gen)) = fail {
+                report.insert("failure".into(), json!({"generator": gen, "message": m, "case": serde_json::to_value(&c).unwrap(), "rendered": c.render()}));
+            }
+            report.insert("wall_s".into(), json!(t0.elapsed().as_secs_f64()));
+            report.insert("seed".into(), json!(seed));
+            std::fs::write(&out, serde_json::to_string_pretty(&serde_json::Value::Object(report)).unwrap()).unwrap();
+        }
+        "replay-cmp" => {
+            let text = std::fs::read_to_string(&args[2]).expect("read replay file");
+            let v: serde_json::Value = serde_json::from_str(&text).expect("json");
+            let cv = if v.get("case").is_some() { v["case"].clone() } else { v };
+            let case: cbverif::cmp_engine::CmpCase = serde_json::from_value(cv).expect("case");
+            println!("case: {}", case.render());
+            match cbverif::cmp_engine::run_cmp_case(&case) {
+                Ok(_) => println!("REPLAY-OK"),
+                Err(m) => {
+                    println!("REPLAY-FAIL {m}");
+                    std::process::exit(1);
+                }
+            }
+        }
+        "zst" => {
+            use cbverif::zst_engine as ze;
+            let thorough = arg(&args, "--tier").as_deref() == Some("thorough");
+            let seed: u64 = arg(&args, "--seed").and_then(|s| s.parse().ok()).unwrap_or(20260926);
+            let threads: usize = arg(&args, "--threads").and_then(|s| s.parse().ok()).unwrap_or(16);
+            let out = arg(&args, "--out").expect("--out");
+            let prop_cases: u32 = arg(&args, "--prop-cases").and_then(|s| s.parse().ok()).unwrap_or(if thorough { 1_000_000 } else { 60_000 });
+            let t0 = Instant::now();
+            let (es, ps, fail) = ze::run_zst(seed, threads, prop_cases, if thorough { 120 } else { 60 });
+            let sj = |st: &ze::ZStats| {
+                json!({
+                    "evaluations": st.evaluations,
+                    "distinct_nontrivial": st.nontrivial.len(),
+                    "cases_with_two_nonempty_slices": st.wrapped,
+                    "cases_with_documented_panic": st.doc_panics,
+                    "by_capacity": st.by_cap,
+                    "samples": st.samples,
+                })
+            };
+            let mut report = serde_json::Map::new();
+            let mut e = sj(&es);
+            e["exhaustive"] = json!(fail.is_none());
+            report.insert("enumerative".into(), e);
+            report.insert("proptest".into(), sj(&ps));
+            if let Some((c, m, gen)) = fail {
+                report.insert("failure".into(), json!({"generator": gen, "message": m, "case": serde_json::to_value(&c).unwrap(), "rendered": c.render()}));
+            }
+            report.insert("wall_s".into(), json!(t0.elapsed().as_secs_f64()));
+            report.insert("seed".into(), json!(seed));
+            std::fs::write(&out, serde_json::to_string_pretty(&serde_json::Value::Object(report)).unwrap()).unwrap();
+        }
+        "replay-zst" => {
+            let text = std::fs::read_to_string(&args[2]).expect("read replay file");
+            let v: serde_json::Value = serde_json::from_str(&text).expect("json");
+            let cv = if v.get("case").is_some() { v["case"].clone() } else { v };
+            let case: cbverif::zst_engine::ZCase = serde_json::from_value(cv).expect("case");
+            println!("case: {}", case.render());
+            match cbverif::zst_engine::run_zcase(&case) {
+                Ok(_) => println!("REPLAY-OK"),
+                Err(m) => {
+                    println!("REPLAY-FAIL {m}");
+                    std::process::exit(1);
+                }
+            }
+        }
         "replay-io" => {
             let text = std::fs::read_to_string(&args[2]).expect("read replay file");
             let v: serde_json::Value = serde_json::from_str(&text).expect("json");
